@@ -191,7 +191,8 @@ pub(super) struct Cfg {
     pub single: (Option<i64>, Option<i64>),
     pub acc: Option<i64>,
     pub min_agree: usize,
-    /// demanded iteration order of the controller's source table: 0 ascending id, 1 descending
+    /// demanded iteration order of the controller's source table: 0 ascending id, 1 descending,
+    /// 2.. the remaining permutations (see `order_permutation`)
     pub order: u8,
     pub init_freq: f64,
     pub step_threshold: f64,
@@ -408,7 +409,31 @@ pub(super) enum Ev {
     Remove {
         src: u8,
     },
+    /// A long realistic run: `rounds` polling rounds over the first `classes.len()` (two-way)
+    /// sources, one measurement every `dt` units, round robin. Source class per character:
+    /// `W` = WAN server (delay 10 ms +- 1 ms, offset +- 200 us, root delay 5 ms, root dispersion
+    /// 1 ms), `L` = server on the local segment (delay 1.5 us +- 1 us, i.e. below the delay
+    /// floor, offset +- 2 us, root delay 0, root dispersion 0), `M` = like L with root
+    /// dispersion 1 us. Jitter from a fixed LCG started at `seed` (delay drawn before offset).
+    /// The slew-end timer fires on the way at its deadline (`late` = false) or, like a busy
+    /// loop, just before the next measurement (`late` = true).
+    Run {
+        classes: String,
+        rounds: u16,
+        seed: u64,
+        dt: i64,
+        late: bool,
+    },
 }
+
+/// LCG jitter in [-1, 1) used by `Ev::Run`
+pub(super) fn lcg_jitter(state: &mut u64) -> f64 {
+    *state = state
+        .wrapping_mul(6_364_136_223_846_793_005)
+        .wrapping_add(1_442_695_040_888_963_407);
+    ((*state >> 11) as f64 / (1u64 << 53) as f64) * 2.0 - 1.0
+}
+pub(super) const RUN_SEED: u64 = 0x2545_F491_4F6C_DD1D;
 
 /// jitter multipliers (offset, delay) of repetition `k` under pattern `pat`
 pub(super) fn jitter(pat: u8, k: u8) -> (i64, i64) {
@@ -529,6 +554,7 @@ impl Ev {
             Ev::Tick => "t".to_string(),
             Ev::Usable { src, on } => format!("u{src}:{}", *on as u8),
             Ev::Remove { src } => format!("r{src}"),
+            Ev::Run { classes, rounds, seed, dt, late } => format!("R{classes}:{rounds}:{seed}:{dt}:{}", *late as u8),
         }
     }
     pub(super) fn decode(s: &str) -> Option<Ev> {
@@ -539,6 +565,19 @@ impl Ev {
             "r" => Some(Ev::Remove {
                 src: rest.parse().ok()?,
             }),
+            "R" => {
+                let p: Vec<&str> = rest.split(':').collect();
+                if p.len() != 5 {
+                    return None;
+                }
+                Some(Ev::Run {
+                    classes: p[0].to_string(),
+                    rounds: p[1].parse().ok()?,
+                    seed: p[2].parse().ok()?,
+                    dt: p[3].parse().ok()?,
+                    late: p[4] == "1",
+                })
+            }
             "u" => {
                 let (a, b) = rest.split_once(':')?;
                 Some(Ev::Usable {
@@ -594,6 +633,44 @@ pub(super) fn decode_trace(t: &str) -> Option<(Cfg, Vec<Ev>)> {
         e.split(',').map(Ev::decode).collect::<Option<Vec<_>>>()?
     };
     Some((cfg, evs))
+}
+
+/// Iteration order (list of ids 1..=n) number `order` of the controller's source table:
+/// 0 = ascending, 1 = descending, 2.. = the remaining permutations in lexicographic order.
+pub(super) fn order_permutation(order: u8, n: usize) -> Vec<u64> {
+    let asc: Vec<u64> = (1..=n as u64).collect();
+    let mut desc = asc.clone();
+    desc.reverse();
+    if order == 0 || n < 2 {
+        return asc;
+    }
+    if order == 1 {
+        return desc;
+    }
+    fn rec(cur: &mut Vec<u64>, used: &mut Vec<bool>, n: usize, out: &mut Vec<Vec<u64>>) {
+        if cur.len() == n {
+            out.push(cur.clone());
+            return;
+        }
+        for i in 0..n {
+            if !used[i] {
+                used[i] = true;
+                cur.push(i as u64 + 1);
+                rec(cur, used, n, out);
+                cur.pop();
+                used[i] = false;
+            }
+        }
+    }
+    let mut all = Vec::new();
+    rec(&mut Vec::new(), &mut vec![false; n], n, &mut all);
+    all.retain(|p| *p != asc && *p != desc);
+    all.get(order as usize - 2).cloned().unwrap_or(asc)
+}
+
+/// number of distinct table orders for n sources (n!)
+pub(super) fn order_count(n: usize) -> u8 {
+    (1..=n).product::<usize>().min(120) as u8
 }
 
 // ------------------------------------------------------------------------------------
@@ -708,10 +785,7 @@ impl World {
                 };
                 slots.push(Slot { id, src: Some(src) });
             }
-            let mut want: Vec<u64> = (1..=cfg.sources.len() as u64).collect();
-            if cfg.order == 1 {
-                want.reverse();
-            }
+            let want = order_permutation(cfg.order, cfg.sources.len());
             if ctrl.ga_order() == want {
                 clock.take_log();
                 return World {
@@ -988,6 +1062,126 @@ impl World {
                     self.view_sources(&mut tr);
                     if self.dead.is_some() {
                         break;
+                    }
+                }
+            }
+            Ev::Run {
+                classes,
+                rounds,
+                seed,
+                dt,
+                late,
+            } => {
+                let n = classes.len();
+                if n == 0
+                    || n > self.slots.len()
+                    || self.slots[..n]
+                        .iter()
+                        .any(|s| !matches!(s.src, Some(Src::Two(_))))
+                {
+                    tr.enabled = false;
+                    return tr;
+                }
+                let mut rng = *seed;
+                'run: for _ in 0..*rounds {
+                    for (si, class) in classes.bytes().enumerate() {
+                        let mut remaining = *dt;
+                        if !*late {
+                            // the loop is idle: the timer fires at its deadline on the way
+                            if let Some(deadline) = self.timer {
+                                let until =
+                                    deadline.saturating_duration_since(tokio::time::Instant::now());
+                                let until_units = du(NtpDuration::from_system_duration(until));
+                                if until_units <= remaining {
+                                    tokio::time::advance(until).await;
+                                    self.clock.advance_local(until_units);
+                                    remaining -= until_units;
+                                    self.timer = None;
+                                    self.events_executed += 1;
+                                    let ctrl = &mut self.ctrl;
+                                    let r = common::catch(|| ctrl.time_update());
+                                    self.handle_update(1, 0, r, &mut tr);
+                                    if self.dead.is_some() {
+                                        break 'run;
+                                    }
+                                }
+                            }
+                        }
+                        tokio::time::advance(Duration::from_nanos(units_to_ns(remaining))).await;
+                        self.clock.advance_local(remaining);
+                        if *late {
+                            if let Some(deadline) = self.timer {
+                                if deadline <= tokio::time::Instant::now() {
+                                    self.timer = None;
+                                    self.events_executed += 1;
+                                    let ctrl = &mut self.ctrl;
+                                    let r = common::catch(|| ctrl.time_update());
+                                    self.handle_update(1, 0, r, &mut tr);
+                                    if self.dead.is_some() {
+                                        break 'run;
+                                    }
+                                }
+                            }
+                        }
+                        self.events_executed += 1;
+                        let (delay, offset, rdelay, rdisp) = match class {
+                            b'W' => {
+                                let d = NtpDuration::from_seconds(
+                                    10e-3 + 1e-3 * lcg_jitter(&mut rng),
+                                );
+                                let o = NtpDuration::from_seconds(200e-6 * lcg_jitter(&mut rng));
+                                (
+                                    d,
+                                    o,
+                                    NtpDuration::from_seconds(5e-3),
+                                    NtpDuration::from_seconds(1e-3),
+                                )
+                            }
+                            c => {
+                                let d = NtpDuration::from_seconds(
+                                    1.5e-6 + 1e-6 * lcg_jitter(&mut rng),
+                                );
+                                let o = NtpDuration::from_seconds(2e-6 * lcg_jitter(&mut rng));
+                                let disp = if c == b'M' {
+                                    NtpDuration::from_seconds(1e-6)
+                                } else {
+                                    NtpDuration::ZERO
+                                };
+                                (d, o, NtpDuration::ZERO, disp)
+                            }
+                        };
+                        let localtime = NtpTimestamp::from_fixed_int(self.clock.local_now());
+                        let leap = leap_of(self.leaps.get(si).copied().unwrap_or(0));
+                        let id = self.slots[si].id;
+                        let r = match self.slots[si].src.as_mut().unwrap() {
+                            Src::Two(c) => common::catch(|| {
+                                c.handle_measurement(InternalMeasurement {
+                                    delay,
+                                    offset,
+                                    localtime,
+                                    root_delay: rdelay,
+                                    root_dispersion: rdisp,
+                                    leap,
+                                    precision: -20,
+                                })
+                            }),
+                            Src::One(_) => unreachable!(),
+                        };
+                        match r {
+                            Ok(Some(m)) => {
+                                tr.produced.push((si, Some(m.ga_f64s())));
+                                self.chan.push_back((id, ChanMsg::Source(m)));
+                            }
+                            Ok(None) => tr.produced.push((si, None)),
+                            Err(m) => {
+                                self.kill(End::Panic("source.handle_measurement".into(), m))
+                            }
+                        }
+                        self.drain(&mut tr);
+                        self.view_sources(&mut tr);
+                        if self.dead.is_some() {
+                            break 'run;
+                        }
                     }
                 }
             }
@@ -1430,6 +1624,16 @@ where
                         du(t.accumulated_steps),
                         u.view
                     ));
+                }
+            }
+            for (k, u) in tr.upds.iter().enumerate() {
+                if let Some(t) = &u.snap {
+                    if u.used.is_some() && !(t.root_variance_base >= 0.0) {
+                        obs.push_str(&format!(
+                            "{{!! update #{k} (message of source {}) combined variance {:e}: used={:?} table(id,usable,[offset,freq,p00,p01,p10,p11,wander,delay],dispersion units)={:?}}} ",
+                            u.src, t.root_variance_base, u.used, u.table
+                        ));
+                    }
                 }
             }
             for v in &tr.views {
